@@ -25,6 +25,7 @@ type shapeField struct {
 	Tag   string // yae name ("" = Go name)
 	Maybe bool
 	S     *shape
+	Pad   bool // write the tag with blanks and mixed case around its parts: ` name , Maybe `
 }
 
 func (s *shape) String() string {
@@ -43,6 +44,9 @@ func (s *shape) String() string {
 			t := f.Tag
 			if f.Maybe {
 				t += ",maybe"
+			}
+			if f.Pad {
+				t = "padded:" + t
 			}
 			xs[i] = fmt.Sprintf("F%d %s `%s`", i, f.S, t)
 		}
@@ -100,6 +104,13 @@ func (s *shape) goType() reflect.Type {
 				}
 				tag += `"`
 			}
+			if f.Pad {
+				tag = `yae:" ` + f.Tag + ` `
+				if f.Maybe {
+					tag += `, Maybe `
+				}
+				tag += `"`
+			}
 			fs[i] = reflect.StructField{Name: fmt.Sprintf("F%d", i), Type: f.S.goType(), Tag: reflect.StructTag(tag)}
 		}
 		return reflect.StructOf(fs)
@@ -146,7 +157,7 @@ func (v *gv) str(s *shape) string {
 	return fmt.Sprintf("#%d", v.I)
 }
 
-var leafTimes = []time.Time{time.Unix(1641092645, 0), time.Unix(0, 0)}
+var leafTimes = []time.Time{time.Unix(1641092645, 0), time.Unix(1641092645, 500000000)}
 
 // leaf domains: (Go value, reference value)
 func leafValue(k string, i int) (reflect.Value, *ref.V) {
@@ -507,8 +518,8 @@ func (s *shape) values(max int) []*gv {
 		for _, a := range es {
 			out = append(out, &gv{Elems: []*gv{a}})
 		}
-		for _, a := range spread(es) {
-			for _, b := range spread(es) {
+		for _, a := range diverse(es, s.Elem) {
+			for _, b := range diverse(es, s.Elem) {
 				out = append(out, &gv{Elems: []*gv{a, b}})
 			}
 		}
@@ -526,8 +537,8 @@ func (s *shape) values(max int) []*gv {
 			out = append(out, &gv{Elems: []*gv{a}})
 		}
 		if isLeaf(s.Key.K) && leafCount(s.Key.K) >= 2 {
-			for _, a := range spread(es) {
-				for _, b := range spread(es) {
+			for _, a := range diverse(es, s.Elem) {
+				for _, b := range diverse(es, s.Elem) {
 					out = append(out, &gv{Elems: []*gv{a, b}})
 				}
 			}
@@ -565,6 +576,30 @@ func (s *shape) values(max int) []*gv {
 	}
 	if max > 0 && len(out) > max*8 {
 		out = out[:max*8]
+	}
+	return out
+}
+
+// diverse picks one value per distinct outcome of the reference conversion (each distinct type,
+// plus one unconvertible value): homogeneity of containers is about exactly these differences.
+func diverse(es []*gv, s *shape) []*gv {
+	seen := map[string]bool{}
+	var out []*gv
+	for _, e := range es {
+		k := "unconvertible"
+		if v, ok := s.refConv(e, 1); ok {
+			k = v.T.String()
+		}
+		if e.Nil {
+			k += "/nil"
+		}
+		if !seen[k] {
+			seen[k] = true
+			out = append(out, e)
+		}
+	}
+	if len(out) > 6 {
+		out = out[:6]
 	}
 	return out
 }
